@@ -209,6 +209,18 @@ func vfPipelineRun(sc vfScript) []map[string]any {
 		}
 	})
 	c.Spawn("loop", func() { ms.processMessageLoop(ctx, tracer) })
+	// the context of whoever calls ProcessMessageQueueForDevicePK (a group context, an RPC) is not the store's:
+	// with "kcancel" it is cancelled by its own thread at any moment while the store lives on
+	kctx := ctx
+	if kc, _ := vfBool(sc.Cfg, "kcancel"); kc {
+		var kcancel context.CancelFunc
+		kctx, kcancel = context.WithCancel(ctx0)
+		defer kcancel()
+		c.Spawn("kc", func() {
+			verifsched.Point("kc_cancel")
+			kcancel()
+		})
+	}
 	for _, d := range regsAny {
 		d := d.(string)
 		c.Spawn("k_"+d, func() {
@@ -217,7 +229,7 @@ func vfPipelineRun(sc vfScript) []map[string]any {
 				vfInfra("register: %v", err)
 			}
 			raw, _ := sdev[d].Raw()
-			ms.ProcessMessageQueueForDevicePK(ctx, raw)
+			ms.ProcessMessageQueueForDevicePK(kctx, raw)
 		})
 	}
 	if withCancel {
